@@ -686,4 +686,13 @@ def openFd (h : HashFn) (st : St) (dict : Nat) (fdTok : String) (prov : List Pro
     applyProvided h dict (clearVolatile st4 root) prov
   | _, _, _ => st
 
+/-- The same call when the probe fails after the format was recognised: `open_dump` tears the probe down
+    and runs `clear_volatile_attrs` once more, so what the probe had set (`prov`) is gone again — but a
+    persistent value it had overwritten is gone with it. -/
+def openFdFailed (h : HashFn) (st : St) (dict : Nat) (fdTok : String) (prov : List Provided) : St :=
+  let s := openFd h st dict fdTok prov
+  match rootOf s dict with
+  | some root => clearVolatile s root
+  | none => s
+
 end Kdf.Model.Attr
